@@ -1121,10 +1121,23 @@ fn temp_ops<T: std::fmt::Debug + happylock::lockable::RawLock>(
 		env.label("owned_temp_killed");
 	}
 	let opname = ["get_mut", "into_inner", "into_child", "debug"][(op % 4) as usize];
+	// locks that must still refuse a try afterwards: held for ever through the
+	// leaked exclusive guard, or killed
+	// (`{:?}` of a boxed collection prints its pointer, not its members)
+	let expect_locked = if ((leak && !shared_leak) || kill) && !label.contains("Boxed") { Some(lids.len()) } else { None };
+	let gone = std::cell::Cell::new(None);
+	let gone_ref = &gone;
 	non_acquiring(env, tid, &format!("{opname} of an owned {label}"), move || match op % 4 {
 		0 => {
 			let mut o = obj;
 			get_mut(&mut o);
+			// `&mut` access hands out data, it does not change who holds what
+			if let Some(n) = expect_locked {
+				let shown = format!("{o:?}").matches("<locked>").count();
+				if shown < n {
+					gone_ref.set(Some((shown, n)));
+				}
+			}
 			drop(o)
 		}
 		1 => into_inner(obj),
@@ -1134,6 +1147,14 @@ fn temp_ops<T: std::fmt::Debug + happylock::lockable::RawLock>(
 			drop(obj)
 		}
 	});
+	if let Some((shown, n)) = gone.get() {
+		env.finding(
+			"C17",
+			tid,
+			format!("disturbs|get_mut|hold-or-kill-undone|{label}"),
+			format!("after get_mut of an owned {label} only {shown} of its {n} locks refuse a try, although all of them are held through a leaked guard or were killed"),
+		);
+	}
 }
 
 fn step_owned_temp(env: &Env, ctx: &mut ThreadCtx, shape: u8, leak: bool, kill: bool, op: u8) -> bool {
